@@ -120,6 +120,33 @@ class TimeoutStorm(Base):
         return self._spend(enabled, self.rng.choice(touts))
 
 
+class Marathon(Base):
+    """A source that stalls for a very long time: whenever some worker is waiting on an empty inbox, its queue-wait timeout
+    fires - `n` times in all - before anybody else is allowed to make progress; afterwards uniform."""
+
+    name = "marathon"
+
+    def __init__(self, seed, n):
+        super().__init__(seed, 10)
+        self.left = n
+        self.allow_idle_steps = 3 * n + 1500  # the stall is deliberate: the no-progress verdict must wait it out
+
+    def choose(self, sched, enabled, me):
+        runs, touts = self._split(enabled)
+        if self.left > 0 and touts:
+            self.left -= 1
+            # keep hammering the same waiting thread (the first one in registration order)
+            return touts[0]
+        if self.left > 0:
+            # nobody is waiting yet: let the waiting thread get back to its get() first, then the others
+            for i in runs:
+                if enabled[i][0].name.startswith("obs"):
+                    return i
+            return self.rng.choice(runs)
+        pool = runs + (touts if self.timeout_budget > 0 else [])
+        return self._spend(enabled, self.rng.choice(pool or touts))
+
+
 class Scripted(Base):
     """Replays a recorded decision list; falls back to index 0 when the script ends."""
 
